@@ -212,6 +212,8 @@ class Builtins:
             return I.run.assume(("in", I.value_key(item), I.value_key(container)), label)
         if isinstance(container, ClassV) and container.cls.is_enum:
             return isinstance(item, EnumV) and item.cls is container.cls
+        if isinstance(container, (IntV, BoolV, FloatV)) or container is NONE:
+            I.raise_exc("TypeError", [Str.lit("argument of this type is not iterable")], node, fr)
         raise I.unsupported(f"`in` on {container!r}", node, fr)
 
     # ------------------------------------------------------------------ subscripts
